@@ -39,7 +39,7 @@ pub fn to_method(m: &KM) -> KernelMethod<f64> {
     match m {
         KM::Linear => KernelMethod::Linear,
         KM::Gaussian(e) => KernelMethod::Gaussian(*e),
-        KM::Polynomial(c, d) => KernelMethod::Polynomial(*c, *d as f64),
+        KM::Polynomial(c, d) => KernelMethod::Polynomial(*c, *d),
     }
 }
 
@@ -239,6 +239,30 @@ pub fn check_kernel(c: &KCase, obs: &mut Obs) {
         }
     }
     obs.class_if((0..n).any(|i| (0..n).any(|j| i != j && r[i][j] == 0.0)) && matches!(c.method, KM::Gaussian(_)), "gaussian_underflow_to_zero");
+    if let KM::Polynomial(pc, pd) = &c.method {
+        let frac = !is_small_integer(*pd);
+        obs.class_if(frac, "poly_fractional_degree");
+        obs.class_if(!frac, "poly_integral_degree");
+        obs.class_if(*pd == 0.0, "poly_degree_zero");
+        obs.class_if(*pc < 0.0, "poly_negative_constant");
+        obs.class_if(pc.fract() != 0.0, "poly_non_integral_constant");
+        let mut zero_base = false;
+        let mut neg_base = false;
+        for i in 0..n {
+            for j in 0..n {
+                let b: f64 = c.x[i].iter().zip(&c.x[j]).map(|(a, b)| a * b).sum::<f64>() + pc;
+                zero_base |= b == 0.0;
+                neg_base |= b < 0.0;
+            }
+        }
+        obs.class_if(zero_base, "poly_zero_base");
+        obs.class_if(neg_base, "poly_negative_base");
+        if frac && (*pd < 0.0 || *pc < 0.0 || c.x.iter().any(|r| r.iter().any(|v| *v < 0.0)) || r.iter().any(|row| row.iter().any(|v| v.is_nan()))) {
+            // (negative base)^(fractional degree) is NaN by definition: kept out of the generator
+            obs.skip("fractional_degree_outside_domain");
+            return;
+        }
+    }
 
     // ---------------------------------------------------------------- dense
     let mut dense_m: Option<Mat> = None;
